@@ -9,7 +9,8 @@ Variable St : Type.
 Variable sem : pkind -> St -> report -> option St * report.
 
 (* L1..L13 of TopShape.phase_obligations: a phase that returns Err(()) leaves a report that holds an error
-   (it pushed one, or - the phases that end in report.stop_at_errors() - one was there) *)
+   (it pushed one, or - the phases that end in report.stop_at_errors() - one was there); `has_error` = an error at ANY depth of a
+   top-level message: what is printed as `error:`, possibly under a `note:` header *)
 Definition loud_on_err : Prop :=
   forall k s r pushed, k <> PStopAtErrors -> sem k s r = (None, pushed) -> has_error (r ++ pushed) = true.
 
@@ -21,7 +22,11 @@ Definition quiet_on_ok : Prop :=
 Definition infallible_ok : Prop :=
   forall k s r pushed, infallible k = true -> sem k s r <> (None, pushed).
 
-Definition obligations : Prop := loud_on_err /\ quiet_on_ok /\ infallible_ok.
+(* T1: a phase that returns Ok has pushed errors only as top-level Errors (what stop_at_errors can see) *)
+Definition top_on_continue : Prop :=
+  forall k s r s' pushed, k <> PStopAtErrors -> sem k s r = (Some s', pushed) -> well_topped pushed = true.
+
+Definition obligations : Prop := loud_on_err /\ quiet_on_ok /\ infallible_ok /\ top_on_continue.
 End Obligations.
 
 (* the two normal ends of asm::assemble *)
